@@ -109,6 +109,25 @@ func directWrites(fn *ssa.Function) []WriteSite {
 						out = append(out, WriteSite{Fn: fn, Instr: in, Path: pth + "[k]"})
 					}
 				}
+			case ssa.CallInstruction:
+				// builtin delete(m, k) removes an entry of m; copy(dst, src) writes dst's elements
+				// (also when deferred or started with go)
+				if bi, ok := in.Common().Value.(*ssa.Builtin); ok && len(in.Common().Args) >= 1 {
+					switch bi.Name() {
+					case "delete":
+						for _, pth := range valuePaths(in.Common().Args[0]) {
+							if _, ok := pureRoot(pth); ok {
+								out = append(out, WriteSite{Fn: fn, Instr: in, Path: pth + "[k]"})
+							}
+						}
+					case "copy":
+						for _, pth := range valuePaths(in.Common().Args[0]) {
+							if _, ok := pureRoot(pth); ok && strings.ContainsAny(pth, ".[") {
+								out = append(out, WriteSite{Fn: fn, Instr: in, Path: pth + "[i]"})
+							}
+						}
+					}
+				}
 			}
 		}
 	}
